@@ -406,3 +406,67 @@ Fixpoint wfc (lo : N) (l : cbm) : Prop :=
   end.
 Definition wf_c (l : cbm) : Prop := wfc 0 l.
 Definition wf_w (l : wl) : Prop := Forall (fun w => w < W64) l.
+
+(* ------------------------------------------------------------------ *)
+(* Operation histories over a register file (what the harness runs)   *)
+(* ------------------------------------------------------------------ *)
+Inductive bop :=
+  | OSet (r : nat) (b : N) | OUnset (r : nat) (b : N) | OFlip (r : nat) (b : N)
+  | OOr (d a c : nat) | OAnd (d a c : nat) | OXor (d a c : nat) | OSub (d a c : nat)
+      (* d := a op c: the in-place forms (d = a) and the ...Copy forms *)
+  | OCopy (d a : nat) | OShrink (r : nat)
+  | OInject (r : nat) (b : N) (v : bool) | OExtract (r : nat) (b : N).
+
+Definition upd {A} (f : nat -> A) (d : nat) (x : A) : nat -> A :=
+  fun r => if Nat.eqb r d then x else f r.
+
+Record bstate := { rc : nat -> list (N * N); rs : nat -> list N; rl : nat -> list N }.
+Definition binit : bstate := {| rc := fun _ => []; rs := fun _ => [0]; rl := fun _ => [] |}.
+
+Definition bstep (st : bstate) (o : bop) : bstate :=
+  match o with
+  | OSet r b => {| rc := upd (rc st) r (c_set (rc st r) b); rs := upd (rs st) r (w_set (rs st r) b);
+                   rl := upd (rl st) r (w_set (rl st r) b) |}
+  | OUnset r b => {| rc := upd (rc st) r (c_unset (rc st r) b); rs := upd (rs st) r (s_unset (rs st r) b);
+                     rl := upd (rl st) r (l_unset (rl st r) b) |}
+  | OFlip r b => {| rc := upd (rc st) r (c_flip (rc st r) b); rs := upd (rs st) r (w_flip (rs st r) b);
+                    rl := upd (rl st) r (w_flip (rl st r) b) |}
+  | OOr d a c => {| rc := upd (rc st) d (c_or (rc st a) (rc st c)); rs := upd (rs st) d (w_or (rs st a) (rs st c));
+                    rl := upd (rl st) d (w_or (rl st a) (rl st c)) |}
+  | OAnd d a c => {| rc := upd (rc st) d (c_and (rc st a) (rc st c)); rs := upd (rs st) d (w_and (rs st a) (rs st c));
+                     rl := upd (rl st) d (w_and (rl st a) (rl st c)) |}
+  | OXor d a c => {| rc := upd (rc st) d (c_xor (rc st a) (rc st c)); rs := upd (rs st) d (w_xor (rs st a) (rs st c));
+                     rl := upd (rl st) d (w_xor (rl st a) (rl st c)) |}
+  | OSub d a c => {| rc := upd (rc st) d (c_sub (rc st a) (rc st c)); rs := upd (rs st) d (w_sub (rs st a) (rs st c));
+                     rl := upd (rl st) d (w_sub (rl st a) (rl st c)) |}
+  | OCopy d a => {| rc := upd (rc st) d (c_copy (rc st a)); rs := upd (rs st) d (rs st a);
+                    rl := upd (rl st) d (rl st a) |}
+  | OShrink r => {| rc := rc st; rs := upd (rs st) r (s_shrink (rs st r));
+                    rl := upd (rl st) r (l_shrink (rl st r)) |}
+  | OInject r b v => {| rc := upd (rc st) r (c_inject (rc st r) b v); rs := upd (rs st) r (w_inject (rs st r) b v);
+                        rl := upd (rl st) r (w_inject (rl st r) b v) |}
+  | OExtract r b =>
+      (* LongBitmask has no Extract: the harness rebuilds it from the ShortBitmask *)
+      {| rc := upd (rc st) r (fst (c_extract (rc st r) b)); rs := upd (rs st) r (fst (s_extract (rs st r) b));
+         rl := upd (rl st) r (fst (s_extract (rs st r) b)) |}
+  end.
+
+(* the same history on plain integer sets *)
+Definition sstep (sp : nat -> N -> bool) (o : bop) : nat -> N -> bool :=
+  match o with
+  | OSet r b => upd sp r (set_set (sp r) b)
+  | OUnset r b => upd sp r (set_unset (sp r) b)
+  | OFlip r b => upd sp r (set_flip (sp r) b)
+  | OOr d a c => upd sp d (set_or (sp a) (sp c))
+  | OAnd d a c => upd sp d (set_and (sp a) (sp c))
+  | OXor d a c => upd sp d (set_xor (sp a) (sp c))
+  | OSub d a c => upd sp d (set_sub (sp a) (sp c))
+  | OCopy d a => upd sp d (sp a)
+  | OShrink r => sp
+  | OInject r b v => upd sp r (set_inject (sp r) b v)
+  | OExtract r b => upd sp r (set_extract (sp r) b)
+  end.
+Definition sinit : nat -> N -> bool := fun _ _ => false.
+
+Fixpoint count_upto (s : N -> bool) (n : nat) : N :=
+  match n with O => 0 | S k => (if s (N.of_nat k) then 1 else 0) + count_upto s k end.
